@@ -1167,14 +1167,18 @@ class ArithmeticExpression(Term):
     def get_sql(self, ctx: SqlContext) -> str:
         left_op, right_op = [getattr(side, "operator", None) for side in [self.left, self.right]]
 
+        right_sql = self.right.get_sql(ctx)
+        right_parens = self.right_needs_parens(self.operator, right_op)
+        if self.operator == Arithmetic.sub and right_sql.startswith("-"):
+            # a-(-1) must not become a--1, which opens an SQL comment
+            right_parens = True
+
         arithmetic_sql = "{left}{operator}{right}".format(
             operator=self.operator.value,
             left=("({})" if self.left_needs_parens(self.operator, left_op) else "{}").format(
                 self.left.get_sql(ctx)
             ),
-            right=("({})" if self.right_needs_parens(self.operator, right_op) else "{}").format(
-                self.right.get_sql(ctx)
-            ),
+            right=("({})" if right_parens else "{}").format(right_sql),
         )
 
         if ctx.with_alias:
